@@ -13,6 +13,10 @@
    state ("blocked"); it is re-entered with that state when the scheduler runs it again.
    chan.resume_reading() may deliver data synchronously (the real channel flushes its queue from
    inside the call): each resume takes the next batch of an environment-supplied list of batches.
+   The model of record follows /repo as repaired by b8d274c (data_received ignores empty data) and d47620c
+   (readuntil re-evaluates the read pause after consuming data in front of a queued exception).  The
+   functions take a flag [fx]: true = the repaired code, false = the code before those two commits, kept only
+   for the *_refuted theorems of Props/C19.v.  The plain names are the repaired code.
    No proofs here. *)
 From AV Require Import Base.Prelude.
 
@@ -75,9 +79,12 @@ Inductive ev :=
 | EvPauseW                    (* pause_writing *)
 | EvResumeW.                  (* resume_writing *)
 
-Definition deliver (s : sess) (e : ev) : sess :=
+Definition is_nil {A} (l : list A) : bool := match l with [] => true | _ => false end.
+
+Definition deliver_v (fx : bool) (s : sess) (e : ev) : sess :=
   match e with
-  | EvData d => maybe_pause (push s (Chunk d) (zlen d))
+  | EvData d => if fx && is_nil d then s       (* b8d274c: if not data: return *)
+                else maybe_pause (push s (Chunk d) (zlen d))
   | EvExn x => push s (Exn x) 0
   | EvEof => set_flags s true (lost s) (lost_exc s) (rpaused s) (wpaused s) (calls s)
   | EvLost exc =>
@@ -87,13 +94,17 @@ Definition deliver (s : sess) (e : ev) : sess :=
   | EvResumeW => set_flags s (eof s) (lost s) (lost_exc s) (rpaused s) false (calls s)
   end.
 
-Definition deliver_all (s : sess) (b : list ev) : sess := fold_left deliver b s.
+Definition deliver_all_v (fx : bool) (s : sess) (b : list ev) : sess := fold_left (deliver_v fx) b s.
+
+Notation deliver := (deliver_v true).
+Notation deliver_all := (deliver_all_v true).
 
 (* chan.resume_reading() was just called (resumed = true): the environment's next batch is
    delivered synchronously *)
-Definition after_resume (s : sess) (resumed : bool) (orc : list (list ev)) : sess * list (list ev) :=
-  if resumed then match orc with b :: orc' => (deliver_all s b, orc') | [] => (s, []) end
+Definition after_resume_v (fx : bool) (s : sess) (resumed : bool) (orc : list (list ev)) : sess * list (list ev) :=
+  if resumed then match orc with b :: orc' => (deliver_all_v fx s b, orc') | [] => (s, []) end
   else (s, orc).
+Notation after_resume := (after_resume_v true).
 
 (* ------------------------------------------------------------------------------------------ *)
 (* results of read calls *)
@@ -148,7 +159,7 @@ Definition read_finish (exact : bool) (s : sess) (n : Z) (acc : bytes) (got : bo
   else Blocked (mkLoc n acc got 0 0).
 
 (* the outer "while True" loop; one iteration per synchronous resume batch *)
-Fixpoint read_loop (exact : bool) (orc : list (list ev)) (s : sess) (n : Z) (acc : bytes) (got : bool) {struct orc}
+Fixpoint read_loop_v (fx : bool) (exact : bool) (orc : list (list ev)) (s : sess) (n : Z) (acc : bytes) (got : bool) {struct orc}
   : outcome * sess * list (list ev) :=
   let '(rb, n1, acc1, got1, bl1, ex) := read_inner (rbuf s) n acc got (blen s) in
   let s1 := set_rbuf s rb bl1 in
@@ -159,11 +170,12 @@ Fixpoint read_loop (exact : bool) (orc : list (list ev)) (s : sess) (n : Z) (acc
       let '(s2, resumed) := maybe_resume s1 in
       match resumed, orc with
       | true, b :: orc' =>
-          if brk then (read_finish exact (deliver_all s2 b) n1 acc1 got1 true, deliver_all s2 b, orc')
-          else read_loop exact orc' (deliver_all s2 b) n1 acc1 got1
+          if brk then (read_finish exact (deliver_all_v fx s2 b) n1 acc1 got1 true, deliver_all_v fx s2 b, orc')
+          else read_loop_v fx exact orc' (deliver_all_v fx s2 b) n1 acc1 got1
       | _, _ => (read_finish exact s2 n1 acc1 got1 brk, s2, orc)
       end
   end.
+Notation read_loop := (read_loop_v true).
 
 (* ---- readuntil ------------------------------------------------------------------------------ *)
 (* re.compile('|'.join(re.escape(sep))).search(buf, start): leftmost start position, and at that
@@ -205,9 +217,7 @@ Fixpoint until_scan (seps : list bytes) (seplen : Z) (rest : list item) (cur : n
       end
   end.
 
-Definition is_nil {A} (l : list A) : bool := match l with [] => true | _ => false end.
-
-Definition until_run (seps : list bytes) (seplen : Z) (orc : list (list ev)) (s : sess) (l : loc)
+Definition until_run_v (fx : bool) (seps : list bytes) (seplen : Z) (orc : list (list ev)) (s : sess) (l : loc)
   : outcome * sess * list (list ev) :=
   let rb := rbuf s in
   match until_scan seps seplen (skipn (l_cur l) rb) (l_cur l) (l_acc l) (l_buflen l) with
@@ -218,11 +228,16 @@ Definition until_run (seps : list bytes) (seplen : Z) (orc : list (list ev)) (s 
                  | [] => []
                  end in
       let '(s2, resumed) := maybe_resume (set_rbuf s rb2 (blen s - idx)) in
-      let '(s3, orc') := after_resume s2 resumed orc in
+      let '(s3, orc') := after_resume_v fx s2 resumed orc in
       (Done (ROk (firstn (Z.to_nat idx) buf)), s3, orc')
   | ScanExn c buf bl =>
       if negb (is_nil buf)
-      then (Done (RIncomplete buf None), set_rbuf s (skipn c rb) (blen s - bl), orc)
+      then if fx
+           then (* d47620c: self._maybe_resume_reading() before raising *)
+                let '(s2, resumed) := maybe_resume (set_rbuf s (skipn c rb) (blen s - bl)) in
+                let '(s3, orc') := after_resume_v fx s2 resumed orc in
+                (Done (RIncomplete buf None), s3, orc')
+           else (Done (RIncomplete buf None), set_rbuf s (skipn c rb) (blen s - bl), orc)
       else match rb with               (* exc = recv_buf.pop(0) *)
            | Exn e :: r => (Done (if e =? SOFT_EOF then ROk buf else RRaise e), set_rbuf s r (blen s), orc)
            | Chunk _ :: r => (Done RTypeError, set_rbuf s r (blen s), orc)
@@ -231,10 +246,11 @@ Definition until_run (seps : list bytes) (seplen : Z) (orc : list (list ev)) (s 
   | ScanEnd c buf bl =>
       if rpaused s || eof s
       then let '(s2, resumed) := maybe_resume (set_rbuf s (skipn c rb) (blen s - bl)) in
-           let '(s3, orc') := after_resume s2 resumed orc in
+           let '(s3, orc') := after_resume_v fx s2 resumed orc in
            (Done (RIncomplete buf None), s3, orc')
       else (Blocked (mkLoc 0 buf false c bl), s, orc)
   end.
+Notation until_run := (until_run_v true).
 
 (* ---- drain ---------------------------------------------------------------------------------- *)
 Definition drain_run (s : sess) : outcome :=
@@ -268,47 +284,53 @@ Definition loc0 (o : op) : loc :=
 Definition line_result (o : outcome) : outcome :=
   match o with Done (RIncomplete p _) => Done (ROk p) | _ => o end.
 
-Definition run_op (o : op) (l : loc) (orc : list (list ev)) (s : sess) : outcome * sess * list (list ev) :=
+Definition run_op_v (fx : bool) (o : op) (l : loc) (orc : list (list ev)) (s : sess) : outcome * sess * list (list ev) :=
   match o with
-  | OpRead _ => read_loop false orc s (l_n l) (l_acc l) (l_got l)
-  | OpExact _ => read_loop true orc s (l_n l) (l_acc l) (l_got l)
-  | OpUntil1 sep => if is_nil sep then (Done RValueError, s, orc) else until_run [sep] (zlen sep) orc s l
-  | OpUntilN seps => if is_nil seps then (Done RValueError, s, orc) else until_run seps (max_len seps) orc s l
-  | OpLine => let '(r, s', orc') := until_run [[NL]] 1 orc s l in (line_result r, s', orc')
+  | OpRead _ => read_loop_v fx false orc s (l_n l) (l_acc l) (l_got l)
+  | OpExact _ => read_loop_v fx true orc s (l_n l) (l_acc l) (l_got l)
+  | OpUntil1 sep => if is_nil sep then (Done RValueError, s, orc) else until_run_v fx [sep] (zlen sep) orc s l
+  | OpUntilN seps => if is_nil seps then (Done RValueError, s, orc) else until_run_v fx seps (max_len seps) orc s l
+  | OpLine => let '(r, s', orc') := until_run_v fx [[NL]] 1 orc s l in (line_result r, s', orc')
   | OpDrain => (drain_run s, s, orc)
   end.
+Notation run_op := (run_op_v true).
 
 (* the consumer: runs its calls in order until one blocks *)
-Fixpoint run_ops (ops : list (op * loc)) (orc : list (list ev)) (s : sess)
+Fixpoint run_ops_v (fx : bool) (ops : list (op * loc)) (orc : list (list ev)) (s : sess)
   : list result * list (op * loc) * sess * list (list ev) :=
   match ops with
   | [] => ([], [], s, orc)
   | (o, l) :: rest =>
-      match run_op o l orc s with
+      match run_op_v fx o l orc s with
       | (Done r, s', orc') =>
-          let '(rs, rem, s'', orc'') := run_ops rest orc' s' in (r :: rs, rem, s'', orc'')
+          let '(rs, rem, s'', orc'') := run_ops_v fx rest orc' s' in (r :: rs, rem, s'', orc'')
       | (Blocked l', s', orc') => ([], (o, l') :: rest, s', orc')
       end
   end.
+Notation run_ops := (run_ops_v true).
 
 (* a schedule: channel callbacks and turns of the consumer, in any order *)
 Inductive step := SDeliver (e : ev) | SRun (orc : list (list ev)).
 
 Record world := mkWorld { w_sess : sess; w_ops : list (op * loc); w_res : list result }.
 
-Definition wstep (w : world) (st : step) : world :=
+Definition wstep_v (fx : bool) (w : world) (st : step) : world :=
   match st with
-  | SDeliver e => mkWorld (deliver (w_sess w) e) (w_ops w) (w_res w)
+  | SDeliver e => mkWorld (deliver_v fx (w_sess w) e) (w_ops w) (w_res w)
   | SRun orc =>
-      let '(rs, rem, s', _) := run_ops (w_ops w) orc (w_sess w) in
+      let '(rs, rem, s', _) := run_ops_v fx (w_ops w) orc (w_sess w) in
       mkWorld s' rem (w_res w ++ rs)
   end.
+Notation wstep := (wstep_v true).
 
 Definition init_world (lim : Z) (prog : list op) : world :=
   mkWorld (init_sess lim) (map (fun o => (o, loc0 o)) prog) [].
 
-Definition run_sched (lim : Z) (prog : list op) (sch : list step) : world :=
-  fold_left wstep sch (init_world lim prog).
+Definition run_sched_v (fx : bool) (lim : Z) (prog : list op) (sch : list step) : world :=
+  fold_left (wstep_v fx) sch (init_world lim prog).
+Notation run_sched := (run_sched_v true).
+(* the code before b8d274c and d47620c *)
+Notation run_sched_old := (run_sched_v false).
 
 (* ------------------------------------------------------------------------------------------ *)
 (* Process level: what SSHClientProcess.wait() / SSHClientConnection.run() report.
